@@ -247,7 +247,7 @@ Definition poll_start (s : state) (i : nat) (pevents : mask) : state * Z :=
   let s1 := poll_stop s i in
   if mzero pevents then (s1, 0) else
   let s2 := io_start s1 i (mand pevents ALLEV) in
-  (hupd s2 i (fun h => h_set_ghost (h_set_active h true) pevents (Some (npw s2))), 0).
+  (hupd s2 i (fun h => h_set_ghost (h_set_active h true) (mand pevents ALLEV) (Some (npw s2))), 0).
 
 (* uv__io_check_fd *)
 Definition io_check_fd (s : state) (fd : Z) : state * Z :=
@@ -335,11 +335,14 @@ Inductive op :=
 
 Inductive event :=
 | EOpen (sl : nat) (fd : Z)
+| ECloseFd (fd : Z)
 | ESkip                                    (* operation not legal here: not performed *)
-| EDone
-| ERet (c : Z)
-| EInit (h : nat) (c : Z) (fd : Z)
-| EAct (b : bool)
+| EInit (h : nat) (k : kind) (c : Z) (fd : Z)
+| EStart (h : nat) (m : mask) (c : Z)
+| EStop (h : nat) (m : mask)
+| EClose (h : nat)
+| EFeed (h : nat)
+| EAct (h : nat) (b : bool)
 | ECb (h : nat) (status : Z) (ev : mask)   (* poll callback; ghosts: *)
       (req : mask) (efd : Z) (rep : mask) (hfd : Z) (gstart : option nat) (n : nat)
 | ERawCb (h : nat) (ev : mask)
@@ -381,45 +384,45 @@ Definition api (fdo : nat -> Z) (s : state) (o : op) : state * list event :=
   | OCloseFd sl =>
       let fd := slots s sl in
       if (fd =? -1) || any_on s fd busy || (strict s && any_on s fd live) then (s, [ESkip])
-      else (set_slots (k_close s fd) (fun x => if Nat.eqb x sl then -1 else slots s x), [EDone])
+      else (set_slots (k_close s fd) (fun x => if Nat.eqb x sl then -1 else slots s x), [ECloseFd fd])
   | OEnv => (s, [])
   | OInit sl =>
       let fd := slots s sl in
       if (fd =? -1) || any_on s fd (fun h => live h && is_raw h) || (strict s && any_on s fd live)
       then (s, [ESkip])
-      else let '(s1, rc) := poll_init s fd in (s1, [EInit (length (hs s)) rc fd])
+      else let '(s1, rc) := poll_init s fd in (s1, [EInit (length (hs s)) KPoll rc fd])
   | ORawInit sl =>
       let fd := slots s sl in
       if (fd =? -1) || any_on s fd live then (s, [ESkip])
-      else (raw_init s fd, [EInit (length (hs s)) 0 fd])
+      else (raw_init s fd, [EInit (length (hs s)) KRaw 0 fd])
   | OStart i m =>
       if valid s i && (match fdt s (h_fd (hget s i)) with Some _ => true | None => false end) then
         match h_kind (hget s i) with
-        | KPoll => let '(s1, rc) := poll_start s i (mand m ALLEV) in (s1, [ERet rc])
-        | KRaw => if mzero (mand m ALLEV) then (s, [ESkip]) else (io_start s i (mand m ALLEV), [EDone])
+        | KPoll => let '(s1, rc) := poll_start s i (mand m ALLEV) in (s1, [EStart i (mand m ALLEV) rc])
+        | KRaw => if mzero (mand m ALLEV) then (s, [ESkip]) else (io_start s i (mand m ALLEV), [EStart i (mand m ALLEV) 0])
         end
       else (s, [ESkip])
   | OStop i m =>
       if valid s i then
         match h_kind (hget s i) with
-        | KPoll => (poll_stop s i, [ERet 0])
-        | KRaw => if mzero (mand m ALLEV) then (s, [ESkip]) else (io_stop s i (mand m ALLEV), [EDone])
+        | KPoll => (poll_stop s i, [EStop i m0])
+        | KRaw => if mzero (mand m ALLEV) then (s, [ESkip]) else (io_stop s i (mand m ALLEV), [EStop i (mand m ALLEV)])
         end
       else (s, [ESkip])
   | OClose i =>
       if valid s i then
         match h_kind (hget s i) with
-        | KPoll => (hupd (poll_stop s i) i (fun h => h_set_closed h true), [EDone])
-        | KRaw => (hupd (io_close s i) i (fun h => h_set_closed h true), [EDone])
+        | KPoll => (hupd (poll_stop s i) i (fun h => h_set_closed h true), [EClose i])
+        | KRaw => (hupd (io_close s i) i (fun h => h_set_closed h true), [EClose i])
         end
       else (s, [ESkip])
   | OFeed i =>
-      if valid s i && is_raw (hget s i) then (io_feed s i, [EDone]) else (s, [ESkip])
+      if valid s i && is_raw (hget s i) then (io_feed s i, [EFeed i]) else (s, [ESkip])
   | OActive i =>
       if valid s i then
         match h_kind (hget s i) with
-        | KPoll => (s, [EAct (h_active (hget s i))])
-        | KRaw => (s, [EAct (io_active s i ALLEV)])
+        | KPoll => (s, [EAct i (h_active (hget s i))])
+        | KRaw => (s, [EAct i (io_active s i ALLEV)])
         end
       else (s, [ESkip])
   | ORun => (s, [])
@@ -437,39 +440,50 @@ Definition user_cb (fdo : nat -> Z) (beh : nat -> list op) (s : state) : state *
   let k := ncb s in
   apis fdo (set_ncb s (S k)) (beh k).
 
-(* uv__poll_io *)
-Definition poll_io (fdo : nat -> Z) (beh : nat -> list op) (s : state) (i : nat)
-           (events : mask) (efd : Z) (rep : mask) : state * list event :=
+(* what w->cb does before it reaches the user's callback.  poll handles:
+   uv__poll_io (POLLERR without POLLPRI stops the handle and reports UV_EBADF,
+   otherwise the events are translated); bare watchers: nothing *)
+Definition cb_pre (s : state) (i : nat) (events : mask) (efd : Z) (rep : mask) : state * event :=
   let h := hget s i in
-  if m_err events && negb (m_pri events) then
-    let s1 := io_stop s i ALLEV in
-    let s2 := hupd s1 i (fun h => h_set_ghost (h_set_active h false) (g_req h) None) in
-    let '(s3, evs) := user_cb fdo beh s2 in
-    (s3, ECb i UV_EBADF m0 (g_req h) efd rep (h_fd h) (g_start h) (npw s) :: evs)
-  else
-    let '(s3, evs) := user_cb fdo beh s in
-    (s3, ECb i 0 (mand events ALLEV) (g_req h) efd rep (h_fd h) (g_start h) (npw s) :: evs).
+  match h_kind h with
+  | KPoll =>
+    if m_err events && negb (m_pri events) then
+      let s1 := io_stop s i ALLEV in
+      (hupd s1 i (fun h => h_set_ghost (h_set_active h false) (g_req h) None),
+       ECb i UV_EBADF m0 (g_req h) efd rep (h_fd h) (g_start h) (npw s))
+    else (s, ECb i 0 (mand events ALLEV) (g_req h) efd rep (h_fd h) (g_start h) (npw s))
+  | KRaw => (s, ERawCb i events)
+  end.
 
 (* w->cb(loop, w, events) *)
 Definition watcher_cb (fdo : nat -> Z) (beh : nat -> list op) (s : state) (i : nat)
            (events : mask) (efd : Z) (rep : mask) : state * list event :=
-  match h_kind (hget s i) with
-  | KPoll => poll_io fdo beh s i events efd rep
-  | KRaw => let '(s1, evs) := user_cb fdo beh s in (s1, ERawCb i events :: evs)
-  end.
+  let '(s1, e) := cb_pre s i events efd rep in
+  let '(s2, evs) := user_cb fdo beh s1 in (s2, e :: evs).
 
-(* one entry of the batch in the dispatch loop of uv__io_poll *)
-Definition dispatch_one (fdo : nat -> Z) (beh : nat -> list op) (s : state) (e : Z * Z * mask)
-  : state * list event :=
+(* one entry of the batch in the dispatch loop of uv__io_poll: skipped
+   (invalidated, or nothing left after masking), disarmed (no watcher), or
+   dispatched with the masked / merged events *)
+Inductive target := TSkip | TDel (fd : Z) | TCall (i : nat) (ev : mask) (orig : Z) (rep : mask).
+
+Definition dispatch_target (s : state) (e : Z * Z * mask) : target :=
   let '(fd, orig, rep) := e in
-  if fd =? -1 then (s, []) else
+  if fd =? -1 then TSkip else
   match reg s fd with
-  | None => (fst (epoll_ctl s CDel fd m0), [])
+  | None => TDel fd
   | Some i =>
     let pev := h_pev (hget s i) in
     let ev1 := mand rep (mor pev ERRHUP) in
     let ev2 := if meqb ev1 ONLY_ERR || meqb ev1 ONLY_HUP then mor ev1 (mand pev ALLEV) else ev1 in
-    if mzero ev2 then (s, []) else watcher_cb fdo beh s i ev2 orig rep
+    if mzero ev2 then TSkip else TCall i ev2 orig rep
+  end.
+
+Definition dispatch_one (fdo : nat -> Z) (beh : nat -> list op) (s : state) (e : Z * Z * mask)
+  : state * list event :=
+  match dispatch_target s e with
+  | TSkip => (s, [])
+  | TDel fd => (fst (epoll_ctl s CDel fd m0), [])
+  | TCall i ev orig rep => watcher_cb fdo beh s i ev orig rep
   end.
 
 Fixpoint dispatch (fuel : nat) (fdo : nat -> Z) (beh : nat -> list op) (s : state)
@@ -477,25 +491,31 @@ Fixpoint dispatch (fuel : nat) (fdo : nat -> Z) (beh : nat -> list op) (s : stat
   match fuel with
   | O => (s, [])
   | S f =>
+    if aborted s then (s, []) else
     match batch s with
     | [] => (s, [])
     | e :: rest =>
       let '(s1, e1) := dispatch_one fdo beh (set_batch s rest) e in
-      if aborted s1 then (s1, e1) else
       let '(s2, e2) := dispatch f fdo beh s1 in (s2, e1 ++ e2)
     end
   end.
 
+(* uv__io_poll up to the call of epoll_pwait: registration loop, ring flushed *)
+Definition poll_prepare (s : state) : state :=
+  let s1 := reg_loop (set_wq s []) (wq s) in
+  if ring s1 then ctl_flush_all s1 else s1.
+
+(* epoll_pwait answered with [ans] *)
+Definition poll_fetch (s : state) (ans : list (Z * mask)) : state :=
+  set_batch (set_npw s (S (npw s))) (map (fun a => (fst a, fst a, snd a)) ans).
+
 (* uv__io_poll(loop, 0) *)
 Definition io_poll (fdo : nat -> Z) (pw : nat -> list (Z * mask)) (beh : nat -> list op) (s : state)
   : state * list event :=
-  let q := wq s in
-  let s1 := reg_loop (set_wq s []) q in
-  let s2 := if ring s1 then ctl_flush_all s1 else s1 in
+  let s2 := poll_prepare s in
   if aborted s2 then (s2, [EAbort]) else
   let ans := pw (npw s2) in
-  let s3 := set_batch (set_npw s2 (S (npw s2))) (map (fun a => (fst a, fst a, snd a)) ans) in
-  let '(s4, evs) := dispatch (length ans) fdo beh s3 in
+  let '(s4, evs) := dispatch (length ans) fdo beh (poll_fetch s2 ans) in
   (set_batch s4 [], EPwait s2 ans :: evs).
 
 (* uv__run_pending *)
@@ -504,6 +524,7 @@ Fixpoint run_pending (fuel : nat) (fdo : nat -> Z) (beh : nat -> list op) (s : s
   match fuel with
   | O => (s, [])
   | S f =>
+    if aborted s then (s, []) else
     match prun s with
     | [] => (s, [])
     | i :: rest =>
